@@ -1,12 +1,23 @@
 """C09 part `rootrem` — the Newton iterations behind mpn_rootrem (rootrem_basecase.c, rootrem.c), merged into c09.py."""
 from genlib import *
 
-LEAN_MODULES = ["MpirProofs.Props.C09Rootrem"]
+LEAN_MODULES = ["MpirProofs.Props.C09Rootrem", "MpirProofs.Props.C09"]
 THEOREMS = ["Mpir.Rootrem.rootrem_basecase_spec", "Mpir.Rootrem.rootrem_basecase_spec_threshold",
-            "Mpir.Rootrem.mpn_rootrem_newton_round_partial", "Mpir.Rootrem.mpn_rootrem_internal_round"]
+            "Mpir.Rootrem.mpn_rootrem_newton_round_partial", "Mpir.Rootrem.mpn_rootrem_internal_round",
+            "Mpir.Rootrem.mpn_rootrem_schedule_ok", "Mpir.Rootrem.mpn_rootrem_internal_spec",
+            "Mpir.Rootrem.mpn_rootrem_internal_approx_spec", "Mpir.Rootrem.mpn_rootrem_spec",
+            "Mpir.Root.rootrem_contract", "Mpir.Root.mpz_root_spec", "Mpir.Root.perfect_power_p_sound",
+            "Mpir.Root.perfect_power_p_iff",
+            "Mpir.Rootrem.mpn_dc_sqrtrem_limb_spec", "Mpir.Rootrem.mpn_sqrtrem_even_limb_spec"]
 PINS = [("mpn/generic/rootrem_basecase.c", "mpn_rootrem_basecase"), ("mpn/generic/pow_1.c", "mpn_pow_1"),
-        ("mpn/generic/rootrem.c", "mpn_rootrem"), ("mpn/generic/rootrem.c", "mpn_rootrem_internal")]
-TRUSTED = ["hand-written model lean/Mpir/Model/Rootrem.lean: mpn_rootrem_basecase at value + limb-count level "
+        ("mpn/generic/rootrem.c", "mpn_rootrem"), ("mpn/generic/rootrem.c", "mpn_rootrem_internal"),
+        ("mpz/perfpow.c", None), ("mpz/root.c", None), ("mpz/rootrem.c", None), ("mpz/nthroot.c", None),
+        ("mpn/generic/sqrtrem.c", "mpn_dc_sqrtrem"), ("mpn/generic/sqrtrem.c", "mpn_sqrtrem")]
+TRUSTED = ["hand-written model lean/Mpir/Model/SqrtremLimb.lean: mpn_dc_sqrtrem on limb buffers (every buffer a natural modulo B^size, "
+           "mpn_sub_n / mpn_add_n / mpn_sub_1 / mpn_add_1 / mpn_addmul_1 / mpn_sqr / mpn_half / mpn_intdivrem by their value + carry "
+           "contracts, the C's int c, b and limb q); tied by op mpn_sqrtrem_dc (even limb count, normalised top limb: the operand "
+           "reaches mpn_dc_sqrtrem unshifted and its return value is stored as rp[tn])",
+           "hand-written model lean/Mpir/Model/Rootrem.lean: mpn_rootrem_basecase at value + limb-count level "
            "(every value, every limb count a test reads, every branch and ASSERT_ALWAYS in source order; buffer capacities "
            "PP_ALLOC/EXTRA and their ASSERT_ALWAYS, carries inside the mpn kernels are not represented); mpn_pow_1, mpn_tdiv_qr, "
            "mpn_addmul_1, mpn_divrem_1 enter by their value contracts (C02/C06 kernels)",
@@ -16,11 +27,15 @@ TRUSTED = ["hand-written model lean/Mpir/Model/Rootrem.lean: mpn_rootrem_basecas
 ASSUMPTIONS = ["rootrem_basecase_spec is stated for operands below 2^32 bits (`bitLen U <= 2^32`): the test `un - pn == xn` of "
                "rootrem_basecase.c:163 recognises a quotient with xn+1 limbs only while nth^2 is small against B^xn; for "
                "astronomically large nth (operands of more than 2^32 bits) the model leaves this case open",
-               "mpn_rootrem_internal: one Newton round is proved (mpn_rootrem_newton_round_partial on the exact expression, "
-               "mpn_rootrem_internal_round on the model step: invariant preserved, no ASSERT_ALWAYS); the induction over the schedule "
-               "list, the bound ni <= 64 on its length, the approx exit and the dispatcher's padded call are differential "
-               "(ops mpn_rootrem_i / mpn_rootrem_i_norem against the model, model == iroot asserted on every op); RootremSpec stays a "
-               "hypothesis of the mpz-level theorems",
+               "mpn_rootrem_internal / mpn_rootrem are proved in full on the model for operands of at most 2^62 resp. 2^61 bits "
+               "(mpn_rootrem_schedule_ok: sizes[] ends in 0, ni <= 64, chain condition; mpn_rootrem_internal_spec, "
+               "mpn_rootrem_internal_approx_spec, mpn_rootrem_spec); beyond 2^63 bits and k = 2 the schedule has 66 entries and "
+               "ASSERT_ALWAYS (ni < GMP_NUMB_BITS + 1) would fire (no address space holds such an operand).  RootremSpec is "
+               "discharged pointwise (rootrem_contract) for every operand an mpz_t can hold: mpz_root_spec, perfect_power_p_sound, "
+               "perfect_power_p_iff carry only the size hypothesis bitLen |u| <= 2^61 (|SIZ| < 2^31 limbs gives 2^37)",
+               "the mpz layer calls the value-level model Mpir.Root.rootrem (Model/Root.lean); Lemmas/RootremBridge.lean proves it equal to "
+               "the Option-valued mirror Mpir.Rootrem.rootrem wherever that answers `some` (internal part) and re-proves its basecase "
+               "with the same invariants; both models answer ops of the differential run (mpn_rootrem / mpn_rootrem_i)",
                "op mpn_rootrem_basecase calls __gmpn_rootrem_basecase directly at every size (the library uses it below ROOTREM_THRESHOLD limbs)"]
 
 def _iroot(n, u):
@@ -130,6 +145,130 @@ def internal_ops(rng, tier):
         for u in (p, p + 1, p - 1, p + rng.getrandbits(rng.choice([8, 64, 64 * xl]))):
             if len(limbs_of(u)) >= 6: yield "mpn_rootrem_i_norem %s %x" % (vec(limbs_of(u)), k)
 
+def _rr_sched(logk, b):
+    """the list sizes[] of rootrem.c:215-233"""
+    out = []
+    while b != 0:
+        out.append(b); c = (b + logk + 1) // 2
+        if c >= b: c = b - 1
+        b = c
+    return out + [0]
+
+def schedule_ops(rng, tier):
+    """walk the schedule sizes[] of mpn_rootrem_internal on purpose: root bit counts xnb = 2^j - 1, 2^j, 2^j + 1 (every
+    length ni of the halving phase), and xnb - 1 around logk + 1 = the point where the schedule switches to one bit per
+    round (beta = 2): xnb - 1 in logk - 1 .. logk + 4, for k at and around powers of two (logk changes at 2^j + 1).
+    Operands: r^k, r^k -+ 1, (r+1)^k - 1 for structured roots r of exactly xnb bits, and uniform/sparse operands of every
+    bit length k (xnb - 1) + 1 + r, r in {0, k - 1, random} (first and last operand of the root's bit window)."""
+    quick = tier == "quick"
+    lim = 6400 if quick else 40000           # operand bits
+    ks = [2, 3, 4, 5, 7, 8, 9, 15, 16, 17, 31, 32, 33, 63, 64, 65, 127, 128, 129, 255, 256, 257, 1023, 1025]
+    if quick: ks = [2, 3, 5, 8, 9, 17, 32, 33, 65, 129, 257]
+    seen = set()
+    def emit(u, k, both=True):
+        if u <= 0 or len(limbs_of(u)) < 6 or u.bit_length() > lim + 64: return
+        if (u, k) in seen: return
+        seen.add((u, k))
+        yield "mpn_rootrem_i %s %x" % (vec(limbs_of(u)), k)
+        if both: yield "mpn_rootrem_i_norem %s %x" % (vec(limbs_of(u)), k)
+    def window(k, xnb, full):
+        T = xnb - 1
+        if T < 1 or k * xnb > lim: return
+        roots = [(1 << xnb) - 1, 1 << T, (1 << T) + 1, rng.getrandbits(xnb) | (1 << T), rrandomb(rng, xnb) | (1 << T)]
+        for r in (roots if full else roots[:1] + roots[3:4]):
+            p = r ** k
+            for u in ((p, p - 1, p + 1, (r + 1) ** k - 1) if full else (p, p + 1)):
+                if u.bit_length() > k * T: yield from emit(u, k)
+        for rr in ((0, k - 1) if quick else (0, k - 1, rng.randrange(k))):
+            nb = k * T + 1 + rr
+            u = rng.getrandbits(nb) | (1 << (nb - 1))
+            yield from emit(u, k, both=False)
+            u = (1 << nb) - 1 - rng.getrandbits(rng.choice([1, 8, 64]))
+            yield from emit(u, k, both=False)
+            yield from emit(1 << (nb - 1), k)
+    for k in ks:
+        logk = (k - 1).bit_length()
+        lens = set()
+        for j in range(1, 14 if quick else 16):
+            for xnb in ((1 << j) - 1, 1 << j, (1 << j) + 1):
+                if xnb >= 2 and k * xnb <= lim:
+                    lens.add(len(_rr_sched(logk, xnb - 1)))
+                    yield from window(k, xnb, full=(not quick or (xnb == (1 << j) + 1 and j <= 7)))
+        # the switch to single bits: T = logk + 1 is the first size reached by the halving phase
+        for T in range(max(1, logk - 1), logk + 6):
+            yield from window(k, T + 1, full=(not quick or T in (logk + 1, logk + 2)))
+        # every schedule length that fits: smallest T with that many rounds
+        for ni in range(2, 40):
+            T = next((t for t in range(1, lim // k) if len(_rr_sched(logk, t)) == ni + 1), None)
+            if T is not None and (ni + 1) not in lens: yield from window(k, T + 1, full=False)
+    # huge indices with a root of 2..4 bits: every round has beta = 2
+    for k in (1000, 1 << 12, (1 << 12) + 1) + (() if quick else (1 << 14, 40000)):
+        for T in (1, 2, 3):
+            if k * (T + 1) > (20000 if quick else 200000): continue
+            for rr in (0, k - 1, rng.randrange(k)):
+                nb = k * T + 1 + rr
+                u = rng.getrandbits(nb) | (1 << (nb - 1))
+                yield "mpn_rootrem_i %s %x" % (vec(limbs_of(u)), k)
+                yield "mpn_rootrem_i_norem %s %x" % (vec(limbs_of((1 << nb) - 1)), k)
+            for r in range(1 << T, 1 << (T + 1)):
+                yield "mpn_rootrem_i %s %x" % (vec(limbs_of(r ** k)), k)
+                yield "mpn_rootrem_i_norem %s %x" % (vec(limbs_of(r ** k + 1)), k)
+                if r > 2: yield "mpn_rootrem_i %s %x" % (vec(limbs_of(r ** k - 1)), k)
+
+def perfpow_ops(rng, tier):
+    """mpz_perfect_power_p on the exits the completeness proof distinguishes: cofactors whose prime factors are all
+    >= SMALLEST_OMITTED_PRIME (1009) so that the root-attempt loops decide — exact root at a prime exponent reached late,
+    the cut-off `root < 1009` (1009^m has root exactly 1009 at nth = m, about 1009^(m/nth) before), the bounded loop over
+    prime divisors of n2 (2-adic valuation and small-prime multiplicities composite), negative operands (odd exponents
+    only; power-of-two multiplicities), cofactor 1."""
+    quick = tier == "quick"
+    big = [1009, 1013, 1019, 1021, 10007, 65537, (1 << 31) - 1, (1 << 61) - 1]
+    for _ in range(90 if quick else 3000):
+        m = rng.choice([2, 3, 5, 7, 11, 13, 17, 19, 23, 4, 6, 9, 15, 25, 49])
+        t = 1
+        for _ in range(rng.randrange(1, 3)): t *= rng.choice(big) ** rng.randrange(1, 3)
+        if t.bit_length() * m > 3000: continue
+        v = t ** m
+        n2 = rng.choice([0, 0, m, 2 * m, 3 * m, 6, 12, 15, 30, 4, 8, 9, 1, 2, 3])
+        sm = rng.choice([1, 1, 3 ** m, 3 ** (2 * m) * 5 ** (3 * m), 7 ** 6, 3 ** 4 * 5 ** 6, 3 ** 9 * 5 ** 6, 3 ** 2 * 997 ** 4])
+        for w in (v, v << n2, (v << n2) * sm, v * sm, (v + 2) << n2, v * rng.choice(big), 1 << n2, sm << n2):
+            if w > 1:
+                yield "mpz_perfect_power_p %s" % hx(w); yield "mpz_perfect_power_p %s" % hx(-w)
+    for m in range(2, 24 if quick else 40):
+        for q in (1009, 1013):
+            yield "mpz_perfect_power_p %s" % hx(q ** m); yield "mpz_perfect_power_p %s" % hx(-(q ** m))
+            yield "mpz_perfect_power_p %s" % hx(q ** m * 1021)
+    for u in (0, 1, -1, 2, -2, 4, -4, 8, -8, 16, -16, 64, -64, 4096, -4096, 1 << 30, -(1 << 30), 1 << 64, -(1 << 64), -(1 << 63)):
+        yield "mpz_perfect_power_p %s" % hx(u)
+
+def sqrtdc_ops(rng, tier):
+    """mpn_sqrtrem on even limb counts with a normalised top limb (mpn_dc_sqrtrem unshifted): operands built backwards from
+    the root so that the carries of the recursion take every value — remainder 0, 2S (c = 1 at the top), roots B^n - 1
+    (q carries out of {sp + l, h}), low half of the root zero (q = 1 at :274 needs it), odd/even quotients (c at :271),
+    squares minus one (the correction branch), both l == h and l + 1 == h."""
+    quick = tier == "quick"
+    def emit(N, n):
+        if N >> (128 * n - 2) and N < (1 << (128 * n)): yield "mpn_sqrtrem_dc %s" % vec(limbs_of(N) + [0] * (2 * n - len(limbs_of(N))))
+    for n in list(range(1, 14)) + ([16, 17, 31, 32] if quick else [16, 17, 31, 32, 33, 63, 64, 65, 100, 129]):
+        W = 1 << (64 * n)
+        roots = [W - 1, W - 2, W // 2, W // 2 + 1, (W // 2) | 1, W - (1 << (32 * n)), (W - 1) ^ ((1 << (64 * (n // 2))) - 1),
+                 (W // 2) + (1 << (64 * (n // 2))), W - 1 - (1 << (64 * (n // 2)))]
+        for _ in range(2 if quick else 40):
+            roots.append(rng.getrandbits(64 * n) | (W // 2))
+            roots.append(rrandomb(rng, 64 * n) | (W // 2))
+        for s in roots:
+            rs = (0, 1, 2 * s, 2 * s - 1, s, s + 1, s - 1, W - 1, W, W + 1, rng.randrange(2 * s + 1), rrandomb(rng, 64 * n) % (2 * s + 1))
+            for r in (rs if not quick else rs[:4] + rs[7:11]):
+                if 0 <= r <= 2 * s: yield from emit(s * s + r, n)
+        for _ in range(10 if quick else 100):
+            N = 0
+            for i, x in enumerate(rand_limbs(rng, 2 * n, rng.choice(["uniform", "runs", "ones", "top", "sparse"]))): N |= x << (64 * i)
+            N |= 1 << (128 * n - 1 - rng.randrange(2))
+            yield from emit(N, n)
+
 def gen_ops(rng, tier, ctx=None):
+    yield from sqrtdc_ops(rng, tier)
     yield from basecase_ops(rng, tier)
     yield from internal_ops(rng, tier)
+    yield from schedule_ops(rng, tier)
+    yield from perfpow_ops(rng, tier)
